@@ -20,8 +20,11 @@ TITLES = ["T", "Title 7", "A title of exactly forty characters long."[:40], "デ
 # ---------------------------------------------------------------- alphabet
 
 
+WS_OWN = "    literal a\n    \n    literal b\n "     # a line of four spaces and a line of one space: spaces of the text itself
+
+
 def alphabet():
-    return [("text", "single line"), ("text", MULTI), ("text", INDENTED), ("field", "fname", "fval"),
+    return [("text", "single line"), ("text", MULTI), ("text", INDENTED), ("text", WS_OWN), ("field", "fname", "fval"),
             ("bul", "i1", "i2"), ("enum",) + tuple(f"e{n}" for n in range(1, 11)),
             ("enum", "run the tests", "install", "run the tests", "run the tests"),      # items may repeat
             ("dir", "note"), ("dir", "function", "f(a b)"),
@@ -65,6 +68,20 @@ class Ref:
             elif it[0] == "enum":
                 out += [f"{ind}{n + 1}. {x}" for n, x in enumerate(it[1:])]
         return [l for l in out if l.strip()]
+
+
+def ref_ws_lines(ref):
+    """lengths of the expected whitespace-only lines that carry spaces of their OWN (a paragraph line made of k>0 spaces is
+    emitted as 3*d + k spaces); k is chosen = 1 mod 3 in the alphabet so that such a line cannot be mistaken for a bare
+    indentation line"""
+    out = []
+    ind = 3 * ref.depth
+    for it in ref.items:
+        if isinstance(it, Ref):
+            out += ref_ws_lines(it)
+        elif it[0] == "text":
+            out += [ind + len(l) for l in it[1].split("\n") if l and not l.strip()]
+    return out
 
 
 def enabled(stack_kinds, opts_on_cursor, maxnest):
@@ -187,6 +204,10 @@ def check(ops, title, headers):
         i = next((i for i, (a, b) in enumerate(itertools.zip_longest(got, exp)) if a != b), 0)
         viol.append(f"layout: non-blank line {i}: got {got[i] if i < len(got) else None!r} "
                     f"expected {exp[i] if i < len(exp) else None!r}")
+    want_ws = sorted(ref_ws_lines(ref))
+    got_ws = sorted(len(l) for l in t1.split("\n") if l and not l.strip() and len(l) % 3 == 1)
+    if got_ws != want_ws:
+        viol.append(f"layout: whitespace-only paragraph lines: expected lines of lengths {want_ws} (3*d spaces + the text's own), got {got_ws}")
     if any(o[0] == "ser" for o in ops):
         w2, _, _ = build(ops, title, headers, with_ser=False)
         if w2.to_text() != t1:
